@@ -34,6 +34,8 @@ func checkC13(c *Ctx) {
 	c.queueMethodsLocked()
 	// answers computed once and kept are reset by every update of what they were computed from
 	c.memoisedViews()
+	// per-object buffers and lists do not start as views of package-level memory
+	c.noSharedBacking()
 }
 
 // whoWrites lists the functions that store the given field of type pkg.typ.
